@@ -36,14 +36,17 @@ Fixpoint parse_nat_go (s : bytes) (acc : Z) : option Z :=
   end.
 Definition parse_nat (s : bytes) : option Z := match s with [] => None | _ => parse_nat_go s 0 end.
 
-(* GetInt64 on a number token: integers of at most 18 digits; anything else that fastjson's best-effort
-   parser rejects gives 0; longer digit strings are outside the model *)
+(* GetInt64 on a number token: integers (fast path up to 18 digits, strconv.ParseInt beyond: 0 when out of the
+   int64 range); anything else that fastjson's best-effort parser rejects gives 0 *)
 Definition get_int64 (v : option fjv) : option Z :=
   match v with
   | Some (FNum tok) =>
       let '(neg, ds) := match tok with b :: r => if Byte.eqb b x2d then (true, r) else (false, tok) | [] => (false, []) end in
       match parse_nat ds with
-      | Some n => if Nat.leb (length ds) 18 then Some (if neg then - n else n) else None
+      | Some n => if Nat.leb (length ds) 18 then Some (if neg then - n else n)
+                  else (* longer digit strings go through strconv.ParseInt: the value inside the int64 range, 0 beyond it *)
+                    if (if neg then n <=? 9223372036854775808 else n <=? 9223372036854775807)
+                    then Some (if neg then - n else n) else Some 0
       | None => if forallb (fun b => is_digit b || byte_in b (B ".eE+-")) tok then Some 0 else None
       end
   | _ => Some 0
